@@ -153,7 +153,7 @@ def inline_new_temps(f, ref_names):
     by a plain `name = <expression>` statement and read exactly once, in the statement that directly follows, is
     substituted back into that statement and its binding removed.  Returns the number of temporaries inlined."""
     n_inlined = 0
-    changed = True
+    changed = not os.environ.get('VERIF_NO_INLINE')      # (switch used only to show that the twin family bites)
     while changed:
         changed = False
         stores, loads = {}, {}
